@@ -233,3 +233,14 @@ package packets
 //@ ensures C13-reserved-bit-zero: r0.Code == 0 ==> pk.ReservedBit == 0
 //@ ensures C13-user-and-password-flags-consistent: r0.Code == 0 ==> (!pk.Connect.UsernameFlag ==> len(pk.Connect.Username) == 0) && (pk.Connect.PasswordFlag <==> len(pk.Connect.Password) > 0) && len(pk.Connect.Password) <= 65535 && len(pk.Connect.Username) <= 65535
 //@ ensures C13-will-fields-consistent: r0.Code == 0 ==> (pk.Connect.WillFlag ==> len(pk.Connect.WillPayload) > 0 && pk.Connect.WillTopic != "" && pk.Connect.WillQos <= 2) && (!pk.Connect.WillFlag ==> !pk.Connect.WillRetain)
+
+// ---- the packet store (retained messages, delayed wills): a map from key to packet ----
+// verif:func packets.Packets.Add
+//@ requires p.internal != nil
+//@ modifies entries(p.internal)
+//@ ensures stored: has(p.internal, id) && p.internal[id] == val
+//@ ensures others-untouched: forall k string :: k != id ==> (has(p.internal, k) <==> old(has(p.internal, k))) && p.internal[k] == old(p.internal[k])
+// verif:func packets.Packets.Delete
+//@ modifies entries(p.internal)
+//@ ensures removed: !has(p.internal, id)
+//@ ensures others-untouched: forall k string :: k != id ==> (has(p.internal, k) <==> old(has(p.internal, k))) && p.internal[k] == old(p.internal[k])
